@@ -11,14 +11,16 @@ RULE = ('E1.31: valid data packets (current and rev2 framing) and discovery page
         'length, absolute lengths 0..header size+2 and 0xfff/0xfffff, every V/H/D flag combination with and without a '
         'previous PDU in the block, blocks ending inside a length field, wrong vectors, zero CID x DMP address '
         'type/size nibbles, increment, number of slots (0, n-1..n+2, 512-514, 0xffff), start codes, options, '
-        'priorities 199-201, universes x DMP data cut at 0/1/5/6/7/8 bytes x >512 slots (clamp) x every truncation '
+        'priorities 199-201, universes x DMP data cut at 0/1/5/6/7/8 bytes x >512 slots (clamp) x DMP PDUs ending exactly at each field boundary with consistent outer lengths after a full packet for '
+        'the same/another universe x E1.33 (RPT) / LLRP packets (root -> framing header -> RDM PDU) with the same '
+        'length/flag/vector mutations x every truncation '
         'length 0-139 and around the end x datagrams of capacity-1/capacity/capacity+1/1600 bytes with consistent '
         'and inconsistent lengths x discovery pages with an odd payload length x 3-9 packet sequences from several '
         'CIDs/priorities/sequence numbers (source tracking and HTP merge are prior state) x random bytes behind a '
         'valid preamble / plausible root+E1.31 PDU headers; 0-2 earlier datagrams; 0-3 handlers with '
         'unallocated/short/full buffers; ignore_preview on/off')
 TRUSTED = ['modelled rather than verified: IncomingUDPTransport::Receive, BaseInflator::InflatePDUBlock/DecodeLength/'
-           'DecodeVector/InflatePDU, Root/E131/E131Rev2/DMP Inflator::DecodeHeader, E131DiscoveryInflator (after fixes/02), '
+           'DecodeVector/InflatePDU, Root/E131/E131Rev2/DMP Inflator::DecodeHeader, E131DiscoveryInflator (after fixes/02), E133Inflator/LLRPInflator/RDMInflator DecodeHeader+HandlePDUData (added to the root inflator by the harness; olad does not listen with them), '
            'DMPE131Inflator::HandlePDUData/TrackSourceIfRequired with DecodeAddress for TWO_BYTES/RANGE_EQUAL, '
            'DmxBuffer::Set/Reset/HTPMerge',
            'E1.31 source expiry (2.5 s of silence) is not modelled: a case is handled within milliseconds',
@@ -68,13 +70,23 @@ def gen_consts(v):
         ('VECTOR_E131_DATA', a + 'VECTOR_E131_DATA'),
         ('VECTOR_E131_DISCOVERY', a + 'VECTOR_E131_DISCOVERY'),
         ('DMP_SET_PROPERTY_VECTOR', a + 'DMP_SET_PROPERTY_VECTOR'),
+        ('VECTOR_ROOT_RPT', a + 'VECTOR_ROOT_RPT'), ('VECTOR_ROOT_LLRP', a + 'VECTOR_ROOT_LLRP'),
+        ('VECTOR_FRAMING_RDMNET', a + 'VECTOR_FRAMING_RDMNET'), ('VECTOR_LLRP_RDM_CMD', a + 'VECTOR_LLRP_RDM_CMD'),
+        ('VECTOR_RDM_CMD_RDM_DATA', a + 'VECTOR_RDM_CMD_RDM_DATA'),
+        ('RDM_VECTOR_SIZE', a + 'PDU::ONE_BYTE'),
+        ('E133_HEADER_SIZE', 'sizeof(' + a + 'E133Header::e133_pdu_header)'),
+        ('E133_OFF_sequence', 'offsetof(' + a + 'E133Header::e133_pdu_header, sequence)'),
+        ('E133_OFF_endpoint', 'offsetof(' + a + 'E133Header::e133_pdu_header, endpoint)'),
+        ('LLRP_HEADER_SIZE', 'sizeof(' + a + 'LLRPHeader::llrp_pdu_header)'),
+        ('LLRP_OFF_transaction', 'offsetof(' + a + 'LLRPHeader::llrp_pdu_header, transaction_number)'),
         ('MAX_E131_PRIORITY', a + 'DMPE131Inflator::MAX_E131_PRIORITY'),
         ('MAX_MERGE_SOURCES', a + 'DMPE131Inflator::MAX_MERGE_SOURCES'),
         ('SEQ_DIFF_THRESHOLD_NEG', '-(int)' + a + 'DMPE131Inflator::SEQUENCE_DIFF_THRESHOLD'),
     ]
     incs = ['ola/acn/ACNFlags.h', 'ola/acn/ACNVectors.h', 'libs/acn/PreamblePacker.h', 'libs/acn/BaseInflator.h',
             'libs/acn/RootInflator.h', 'libs/acn/E131Inflator.h', 'libs/acn/DMPInflator.h', 'libs/acn/DMPE131Inflator.h',
-            'libs/acn/E131Header.h', 'libs/acn/DMPHeader.h', 'libs/acn/DMPAddress.h']
+            'libs/acn/E131Header.h', 'libs/acn/DMPHeader.h', 'libs/acn/DMPAddress.h', 'libs/acn/E133Header.h',
+            'libs/acn/LLRPHeader.h', 'libs/acn/PDU.h']
     return v.gen_consts_cpp('C06/acn', incs, ents, os.path.join(v.VERIF, 'props', 'C06', 'coq', 'GenAcn.v'),
                             extra_sources=['libs/acn/PreamblePacker.cpp', 'common/network/NetworkUtils.cpp', 'common/base/Logging.cpp', 'common/utils/StringUtils.cpp', 'common/network/IPV4Address.cpp', 'common/network/SocketAddress.cpp', 'common/network/Interface.cpp', 'common/network/MACAddress.cpp', 'common/utils/Clock.cpp', 'common/base/SysExits.cpp', 'common/base/Flags.cpp', 'common/base/Version.cpp', 'common/file/Util.cpp', 'common/network/SocketCloser.cpp', 'common/math/Random.cpp'])
 
@@ -303,6 +315,87 @@ def mutants(rng, quick, kind):
     yield 'cap-claim', clone(big, e=dict(dlen=1)).build()
 
 
+def dmp_boundaries(rng, quick):
+    """yield (config, [datagrams]): E1.31 data packets whose DMP PDU ends exactly at each field boundary (after the
+    length, vector, address type, first address, increment, count, start code, k values) with ALL outer lengths
+    consistent with the shortened datagram, preceded by a full valid packet for the same / another universe
+    (so that the bytes after the datagram in a persistent receive buffer are a plausible start code + slots)"""
+    for kind in ('data', 'rev2'):
+        for other in (False, True):
+            for samecid in (True, False):
+                seq = rng.randrange(200)
+                nprev = rng.choice([512, 512, 24])
+                prev = P(rng, kind=rng.choice([kind, kind, 'data']), uni=2 if other else 1, cid=cid_of(1), prio=100,
+                         seq=seq, opts=0, slots=[rng.randrange(1, 256) for _ in range(nprev)])
+                v = P(rng, kind=kind, uni=1, cid=cid_of(1 if samecid else 2), prio=100, seq=(seq + 1) & 255, opts=0,
+                      slots=[rng.randrange(1, 256) for _ in range(5)])
+                full = v.dmp_pdu()
+                cuts = [2, 3, 4, 6, 8, 9, 10, 11, 12, 13, len(full) - 1, len(full)]
+                if not quick:
+                    cuts = list(range(0, len(full) + 1))
+                for c in cuts:
+                    for number in ((None, 0) if c == 10 else (None,)):
+                        q = clone(v) if number is None else clone(v, number=number)
+                        cut = q.dmp_pdu()[:c]
+                        if c >= 2:
+                            cut[0], cut[1] = 0x70 | (c >> 8), c & 255
+                        q.dmp_pdu = lambda cut=cut: cut
+                        cfg = '%s,1:%s,2:none' % (rng.choice('0001'), rng.choice(['none', hx([7] * 512)]))
+                        yield cfg, [hx(prev.build()), hx(q.build())]
+
+
+def rpt_packet(rng, kind, n=None, r=None, f=None, m=None, fvec=None, mvec=0xcc, more_f=(), more_m=()):
+    """E1.33 (RPT) / LLRP packet: root -> framing (E133 / LLRP header) -> RDM PDU; r/f/m = pdu() keyword overrides"""
+    data = [rng.randrange(256) for _ in range(rng.choice([0, 1, 3, 26, 200]) if n is None else n)]
+    if kind == 'e133':
+        hdr = list(b'rpt-source'.ljust(64, b'\0')) + be32(rng.randrange(1 << 32)) + be16(rng.randrange(65536)) + [0]
+        rvec, fv = 5, 1
+    else:
+        hdr = cid_of(rng.randrange(1, 5)) + be32(rng.randrange(1 << 32))
+        rvec, fv = 10, 3
+    mp = pdu([mvec], [], data, **(m or dict(fl=0x70))) + list(more_m)
+    fp = pdu(be32(fv if fvec is None else fvec), hdr, mp, **(f or dict(fl=0x70))) + list(more_f)
+    return PRE + pdu(be32(rvec), cid_of(1), fp, **(r or dict(fl=0x70)))
+
+
+def rpt_cases(rng, quick):
+    """yield lists of datagrams for the E1.33 / LLRP header decoders"""
+    for kind in ('e133', 'llrp'):
+        hs = 71 if kind == 'e133' else 20
+        full = rpt_packet(rng, kind, n=40)
+        yield [full]
+        for lv in ('r', 'f', 'm'):
+            for dl in (-1, 1, 2, 100):
+                yield [rpt_packet(rng, kind, **{lv: dict(fl=0x70, dlen=dl)})]
+            yield [rpt_packet(rng, kind, **{lv: dict(fl=0x70, L=True)})]
+            for fl in (0x30, 0x50, 0x10, 0x00, 0x60):
+                yield [rpt_packet(rng, kind, **{lv: dict(fl=fl)})]
+        # the framing PDU's length around vector and header sizes
+        for al in (0, 1, 2, 5, 6, 7, 6 + hs - 1, 6 + hs, 6 + hs + 1, 6 + hs + 2, 6 + hs + 3, 6 + hs + 4):
+            yield [rpt_packet(rng, kind, f=dict(fl=0x70, alen=al))]
+        for al in (0, 1, 2, 3, 4):
+            yield [rpt_packet(rng, kind, m=dict(fl=0x70, alen=al))]
+        for fv in (0, 1, 2, 3, 4):
+            yield [rpt_packet(rng, kind, fvec=fv)]
+        for mv in (0, 0xcb, 0xcd):
+            yield [rpt_packet(rng, kind, mvec=mv)]
+        # second PDUs inheriting vector / header
+        for fl in (0x70, 0x30, 0x50, 0x10, 0x00):
+            yield [rpt_packet(rng, kind, more_m=pdu([0xcc], [], [1, 2, 3], fl=fl))]
+            hdr2 = ([7] * hs)
+            yield [rpt_packet(rng, kind, more_f=pdu(be32(1 if kind == 'e133' else 3), hdr2, pdu([0xcc], [], [9, 9]), fl=fl))]
+        # truncation (outer lengths unchanged) after a full packet of the same kind
+        cuts = set(range(16, 16 + 6 + 16 + 6 + hs + 8)) | {len(full) - 1, len(full)}
+        if quick:
+            cuts = set(sorted(cuts)[::3]) | {16 + 22 + 6 + hs + k for k in (-1, 0, 1, 2, 3)}
+        for c in sorted(cuts):
+            yield [rpt_packet(rng, kind, n=60), full[:c]]
+        # maximum-size
+        for total in (1471, 1472, 1473):
+            k = total - len(rpt_packet(rng, kind, n=0))
+            yield [rpt_packet(rng, kind, n=k)]
+
+
 def odd_disc(rng):
     """discovery pages whose universe list has an odd number of bytes (fixes/02)"""
     v = P(rng, kind='disc', unis=[1, 2])
@@ -346,6 +439,12 @@ def gen_cases(rng, tier):
                 yield 'acn %s %s' % (config(rng), ' '.join(earlier(rng) + [hx(dg)]))
     for _ in range(3 if quick else 200):
         yield 'acn %s %s' % (config(rng), ' '.join(earlier(rng) + [hx(odd_disc(rng))]))
+    for _ in range(1 if quick else 10):
+        for dgs in rpt_cases(rng, quick):
+            yield 'acn %s %s' % (config(rng), ' '.join(hx(d) for d in dgs))
+    for _ in range(1 if quick else 20):
+        for cfg, dgs in dmp_boundaries(rng, quick):
+            yield 'acn %s %s' % (cfg, ' '.join(dgs))
     # sequences from several sources / priorities (tracking state is prior state for the next datagram)
     for _ in range(60 if quick else 3000):
         many = rng.random() < 0.4     # up to 8 sources at one priority: MAX_MERGE_SOURCES is reached
